@@ -17,3 +17,172 @@ Definition keep_valued (vals props : list xq) : list xq :=
 Definition wmean (props vals : list xq) : xq :=
   xdiv (nansum (map (fun vp => xmul (fst vp) (snd vp)) (combine vals props)))
        (xsum (keep_valued vals props)).
+
+
+(* ====================================================================================
+   Everything below: the scale statistics of one vector (property C14).
+
+   A "vector" is one row (ROWS orientation: over the base columns) or one column (COLUMNS
+   orientation: over the base rows) of a slice, base or subtotal.  [vals] are the numeric
+   values of the opposing dimension's valid elements in payload order (NaN = no value),
+   [counts] the weighted counts of the vector's cells, [bases] their weighted bases.
+   ==================================================================================== *)
+From CC Require Import Spec.Stats.
+
+Definition xval (o : option Q) : xq := match o with Some v => Fin v | None => NaN end.
+
+(* `is_defined`: not np.all(np.isnan(numeric_values)) -- otherwise the property is None *)
+Definition any_value (vals : list xq) : bool := existsb (fun v => negb (is_nan v)) vals.
+
+(* `_ScaleMean._proportions`: counts / weighted bases, cell by cell *)
+Definition pdiv (counts bases : list xq) : list xq :=
+  map (fun cb => xdiv (fst cb) (snd cb)) (combine counts bases).
+
+Definition scale_mean_vec (counts bases vals : list xq) : xq := wmean (pdiv counts bases) vals.
+
+(* `_BaseMarginal._counts`: comparable counts -- a subtotal DIFFERENCE vector is all NaN *)
+Definition comparable (is_diff : bool) (counts : list xq) : list xq :=
+  if is_diff then map (fun _ => NaN) counts else counts.
+
+Definition valued_pairs (vals counts : list xq) : list (xq * xq) :=
+  filter (fun vc => negb (is_nan (fst vc))) (combine vals counts).
+
+(* `_rows_weighted_mean_stddev` before the square root:
+     nansum(counts[valued] * (values[valued] - mean)^2) / sum(counts[valued])             *)
+Definition scale_var (counts vals : list xq) (mean : xq) : xq :=
+  let vp := valued_pairs vals counts in
+  xdiv (nansum (map (fun vc => xmul (snd vc) (xsq (xsub (fst vc) mean))) vp))
+       (xsum (map snd vp)).
+
+(* the argument of an np.sqrt: a negative one makes the root (hence its square) NaN *)
+Definition sqrt_arg (a : xq) : xq :=
+  match a with
+  | Fin q => if qneg q then NaN else a
+  | Inf true => NaN
+  | _ => a
+  end.
+
+(* stddev^2 of a vector *)
+Definition scale_var_vec (is_diff : bool) (counts bases vals : list xq) : xq :=
+  sqrt_arg (scale_var (comparable is_diff counts) vals (scale_mean_vec counts bases vals)).
+
+(* stderr^2 = (stddev / sqrt(margin))^2 ; margin = the vector's weighted margin *)
+Definition scale_stderr_sq_vec (is_diff : bool) (counts bases vals : list xq) (margin : xq) : xq :=
+  xdiv (scale_var_vec is_diff counts bases vals) (sqrt_arg margin).
+
+(* ---- median ---------------------------------------------------------------------- *)
+(* np.nan_to_num on a count (infinite counts do not occur and are not modelled) *)
+Definition nan_to_num (a : xq) : Q := match a with Fin q => q | _ => 0%Q end.
+
+Fixpoint cumsum_from (acc : Q) (l : list Q) : list Q :=
+  match l with
+  | [] => []
+  | c :: t => (acc + c)%Q :: cumsum_from (acc + c)%Q t
+  end.
+Definition cumsum (l : list Q) : list Q := cumsum_from 0%Q l.
+
+Fixpoint first_true (l : list bool) : nat :=
+  match l with
+  | [] => 0
+  | true :: _ => 0
+  | false :: t => S (first_true t)
+  end.
+(* np.argmax of a boolean array: the first True, 0 when there is none *)
+Definition argmax_bool (l : list bool) : nat :=
+  let k := first_true l in if k <? length l then k else 0.
+
+(* `_ScaleMedian._weighted_median(sorted_counts, sorted_values)` *)
+Definition weighted_median (sorted_counts : list xq) (sorted_values : list Q) : xq :=
+  let cs := map nan_to_num sorted_counts in
+  let cum := cumsum cs in
+  let total := last cum 0%Q in
+  if Qeq_bool total 0 then NaN else
+  let props := map (fun c => c / total)%Q cum in
+  let idx := argmax_bool (map (fun p => Qle_bool (1 # 2) p) props) in
+  if Qeq_bool (nth idx props 0%Q) (1 # 2)
+  then Fin ((nth idx sorted_values 0 + nth (S idx) sorted_values 0) / 2)%Q
+  else Fin (nth idx sorted_values 0%Q).
+
+(* `_values_sort_order`: the indexes of the valued categories, ascending by value.  numpy's
+   argsort leaves the order of EQUAL values unspecified, so the order is an input here: any
+   [ord] accepted by [valid_order]; [stable_order] is one of them (ties in payload order). *)
+Definition valued_idxs (vals : list xq) : list nat :=
+  filter (fun i => negb (is_nan (vnth vals i))) (seq 0 (length vals)).
+Fixpoint mem_nat (x : nat) (l : list nat) : bool :=
+  match l with [] => false | y :: t => (x =? y) || mem_nat x t end.
+Fixpoint nodup_nat (l : list nat) : bool :=
+  match l with [] => true | x :: t => negb (mem_nat x t) && nodup_nat t end.
+Fixpoint ascending (l : list Q) : bool :=
+  match l with
+  | [] => true
+  | x :: t => match t with [] => true | y :: _ => Qle_bool x y && ascending t end
+  end.
+Definition valid_order (vals : list xq) (ord : list nat) : bool :=
+  nodup_nat ord && (length ord =? length (valued_idxs vals))
+  && forallb (fun i => (i <? length vals) && negb (is_nan (vnth vals i))) ord
+  && ascending (map (fun i => nan_to_num (vnth vals i)) ord).
+
+Fixpoint insert_by (key : nat -> Q) (i : nat) (l : list nat) : list nat :=
+  match l with
+  | [] => [i]
+  | y :: t => if Qle_bool (key i) (key y) then i :: l else y :: insert_by key i t
+  end.
+Definition stable_order (vals : list xq) : list nat :=
+  fold_right (insert_by (fun i => nan_to_num (vnth vals i))) [] (valued_idxs vals).
+
+Definition scale_median_vec (ord : list nat) (is_diff : bool) (counts vals : list xq) : xq :=
+  let cc := comparable is_diff counts in
+  weighted_median (map (fun i => vnth cc i) ord) (map (fun i => nan_to_num (vnth vals i)) ord).
+
+(* ---- medians computed by expansion (np.repeat + np.median): strand, slice margins ------- *)
+(* float -> int64 truncates toward zero; a negative count is not modelled (np.repeat raises) *)
+Definition trunc_count (a : xq) : nat :=
+  let q := nan_to_num a in Z.to_nat (Z.quot (Qnum q) (Zpos (Qden q))).
+Definition expand_valued (vals counts : list xq) : list Q :=
+  flat_map (fun vc => repeat (nan_to_num (fst vc)) (trunc_count (snd vc))) (valued_pairs vals counts).
+Fixpoint qinsert (x : Q) (l : list Q) : list Q :=
+  match l with
+  | [] => [x]
+  | y :: t => if Qle_bool x y then x :: l else y :: qinsert x t
+  end.
+Definition qsort (l : list Q) : list Q := fold_right qinsert [] l.
+(* np.median of a non-empty array *)
+Definition np_median (l : list Q) : Q := middle (qsort l).
+
+(* `_Slice.*_scale_mean_margin` = the same weighted-mean formula over the margin vector;
+   `_Slice.*_scale_median_margin`: None when no respondent has a value *)
+Definition scale_mean_margin (margin vals : list xq) : xq := wmean margin vals.
+Definition scale_median_margin (margin vals : list xq) : option xq :=
+  match expand_valued vals margin with
+  | [] => None
+  | e => Some (Fin (np_median e))
+  end.
+
+(* ---- strand (`stripe/measure.py::_ScaledCounts`) ---------------------------------------- *)
+(* each result: None = the property is None *)
+Definition strand_total (counts vals : list xq) : xq := xsum (map snd (valued_pairs vals counts)).
+Definition strand_scale_mean (counts vals : list xq) : option xq :=
+  let vp := valued_pairs vals counts in
+  match vp with
+  | [] => None
+  | _ => if xeqb (strand_total counts vals) (Fin 0) then None
+         else Some (xdiv (xsum (map (fun vc => xmul (snd vc) (fst vc)) vp)) (strand_total counts vals))
+  end.
+Definition strand_scale_var (counts vals : list xq) : option xq :=
+  match strand_scale_mean counts vals with
+  | None => None
+  | Some m =>
+      Some (xdiv (xsum (map (fun vc => xmul (snd vc) (xsq (xsub (fst vc) m))) (valued_pairs vals counts)))
+                 (strand_total counts vals))
+  end.
+(* stddev^2 and stderr^2 *)
+Definition strand_scale_stddev_sq (counts vals : list xq) : option xq :=
+  option_map sqrt_arg (strand_scale_var counts vals).
+Definition strand_scale_stderr_sq (counts vals : list xq) : option xq :=
+  option_map (fun v => sqrt_arg (xdiv v (strand_total counts vals))) (strand_scale_var counts vals).
+(* np.median(np.repeat(values, int(counts))): NaN (not None) for an empty expansion *)
+Definition strand_scale_median (counts vals : list xq) : option xq :=
+  match valued_pairs vals counts with
+  | [] => None
+  | _ => Some (match expand_valued vals counts with [] => NaN | e => Fin (np_median e) end)
+  end.
